@@ -1,0 +1,76 @@
+//go:build verif
+
+package inference
+
+import (
+	"go/ast"
+	"go/token"
+	"go/types"
+
+	"go.uber.org/nilaway/annotation"
+	"go.uber.org/nilaway/config"
+	"go.uber.org/nilaway/util/analysishelper"
+	"golang.org/x/tools/go/analysis"
+)
+
+// This file is only compiled with the `verif` build tag. It lets the verification harness compute the
+// identity (primitive site) the real primitivizer gives to arbitrary annotation keys, in the view of an
+// arbitrary analysing package with arbitrary imported InferredMap facts.
+
+// VerifKeyQuery asks for the site of one key, shallow or deep.
+type VerifKeyQuery struct {
+	Key  annotation.Key
+	Deep bool
+}
+
+func verifKeysPass(fset *token.FileSet, pkg *types.Package, facts []analysis.PackageFact) *analysishelper.EnhancedPass {
+	return analysishelper.NewEnhancedPass(&analysis.Pass{
+		Analyzer:          &analysis.Analyzer{Name: "verifkeys"},
+		Fset:              fset,
+		Pkg:               pkg,
+		TypesInfo:         &types.Info{Types: map[ast.Expr]types.TypeAndValue{}, Defs: map[*ast.Ident]types.Object{}, Uses: map[*ast.Ident]types.Object{}},
+		ResultOf:          map[*analysis.Analyzer]any{config.Analyzer: &config.Config{}},
+		Report:            func(analysis.Diagnostic) {},
+		AllPackageFacts:   func() []analysis.PackageFact { return facts },
+		ExportPackageFact: func(analysis.Fact) {},
+	})
+}
+
+func verifSiteInfo(s primitiveSite) VerifSiteInfo {
+	return VerifSiteInfo{File: s.Position.Filename, Line: s.Position.Line, Col: s.Position.Column, Offset: s.Position.Offset,
+		PkgPath: s.PkgPath, Repr: s.Repr, Path: string(s.ObjectPath), IsDeep: s.IsDeep, Exported: s.Exported}
+}
+
+// VerifSitesOf returns primitivizer.site(key, deep) for every query, computed while "analysing" pkg with the
+// given imported facts.
+func VerifSitesOf(fset *token.FileSet, pkg *types.Package, facts []analysis.PackageFact, qs []VerifKeyQuery) []VerifSiteInfo {
+	p := newPrimitivizer(verifKeysPass(fset, pkg, facts))
+	out := make([]VerifSiteInfo, 0, len(qs))
+	for _, q := range qs {
+		out = append(out, verifSiteInfo(p.site(q.Key, q.Deep)))
+	}
+	return out
+}
+
+// VerifFactOf builds the InferredMap fact a package would publish if exactly the queried sites were determined
+// (in the given order), each site computed by the package's own primitivizer; optionally through a gob round trip.
+func VerifFactOf(fset *token.FileSet, pkg *types.Package, facts []analysis.PackageFact, qs []VerifKeyQuery, useGob bool) analysis.Fact {
+	GobRegister()
+	p := newPrimitivizer(verifKeysPass(fset, pkg, facts))
+	m := newInferredMap(p)
+	for _, q := range qs {
+		s := p.site(q.Key, q.Deep)
+		m.StoreDetermined(s, TrueBecauseAnnotation{AnnotationPos: s.Position})
+	}
+	if useGob {
+		b, err := m.GobEncode()
+		if err != nil {
+			panic(err)
+		}
+		m = new(InferredMap)
+		if err := m.GobDecode(b); err != nil {
+			panic(err)
+		}
+	}
+	return m
+}
